@@ -36,7 +36,7 @@ def configs(tier, seed):
     for low in ((0.25, 0.5, 0.8, 1.0) if tier == 'thorough' else (0.5, 0.8)):
       cfgs.append(dict(name='relay/q%d/low%s' % (mq, low), mode='relay', maxq=mq, fc=True, low=low))
   # USE_FLOW_CONTROL off: queues still fill up and drain, nobody may end up paused
-  for mq in ((2, 4) if tier == 'quick' else (2, 4, 10)):
+  for mq in ((2,) if tier == 'quick' else (2, 4, 10)):
     cfgs.append(dict(name='relay/q%d/low0.5/fc0' % mq, mode='relay', maxq=mq, fc=False, low=0.5))
   return cfgs
 
